@@ -158,7 +158,7 @@ fn op_strategy(n: u8) -> impl Strategy<Value = Op> {
 fn skeleton(which: u8, n: u8) -> Vec<Op> {
     use Op::*;
     let (a, b, c, d, e) = (0u8, 1u8, 2u8, 3u8, 4u8);
-    match which % 4 {
+    match which % 5 {
         // a candidate wins a voter's vote in two consecutive terms (answers lost), the voter
         // restarts, a rival campaigns in the same term
         3 => vec![
@@ -245,6 +245,41 @@ fn skeleton(which: u8, n: u8) -> Vec<Op> {
             HeartbeatRound(c),
             DeliverAllTo(a),
         ],
+        // stale append answer (5 nodes): b's success answer of term 1 stays in flight while a
+        // loses leadership, has its log replaced by c's, is re-elected and appends new entries;
+        // the old answer then reaches a together with one genuine acknowledgement
+        4 if n >= 5 => vec![
+            ElectRound(a),
+            HeartbeatRound(a),
+            Propose(a),
+            Propose(a),
+            Propose(a),
+            Heartbeat(a),
+            DeliverFromTo(a, b),
+            ElectRound(c),
+            HeartbeatRound(c),
+            Propose(c),
+            Heartbeat(c),
+            DeliverFromTo(c, d),
+            DeliverFromTo(c, a),
+            ElectRound(a),
+            Heartbeat(a),
+            DeliverFromTo(a, d),
+            DeliverFromTo(d, a),
+            DeliverFromTo(a, c),
+            DeliverFromTo(c, a),
+            Propose(a),
+            Propose(a),
+            Heartbeat(a),
+            DeliverFromTo(a, d),
+            DeliverFromTo(d, a),
+            DeliverFromTo(b, a),
+            ElectRound(c),
+            HeartbeatRound(c),
+            HeartbeatRound(c),
+            ProposeRound(c),
+            HeartbeatRound(c),
+        ],
         // leader change with in-flight appends and a restart of the old leader
         _ => vec![
             ElectRound(a),
@@ -305,7 +340,7 @@ fn case_strategy(t: Tier) -> impl Strategy<Value = Case> {
                 prop::collection::vec(0u8..4, n as usize),
                 prop::collection::vec(op_strategy(n), 0..max_ops),
                 // skeleton choice (None in 2/3 of cases), role permutation keys, gap sizes
-                prop::option::weighted(0.4, 0u8..4),
+                prop::option::weighted(0.4, 0u8..5),
                 prop::collection::vec(any::<u16>(), 5),
                 prop::collection::vec(0u8..3, 32),
             )
